@@ -75,6 +75,23 @@ func (self *MaxJobsSemaphore) Acquire(metadata *Metadata, nonblocking bool) bool
 	return true
 }
 
+// Record a job which a previous mrp instance had already submitted, and
+// which is still queued or running, as holding the semaphore.
+//
+// Unlike Acquire, this does not wait for capacity, since the job is
+// already out there.
+func (self *MaxJobsSemaphore) Reattach(metadata *Metadata) {
+	if metadata == nil {
+		return
+	}
+	if st, ok := metadata.getState(); !ok || (st != Queued && st != Running) {
+		return
+	}
+	self.lock.Lock()
+	defer self.lock.Unlock()
+	self.running[metadata] = struct{}{}
+}
+
 // Clear this semaphore and release all pending acquisitions.
 //
 // The semaphore can no longer be used after being cleared this way.
